@@ -913,9 +913,10 @@ def gen_insertion_order_case(rng, k):
     return case
 
 
-def check_pair(case, sample_names=None):
+def check_pair(case, sample_names=None, read_order=None):
     """Run the case with its transforms and with order/hide/prune stripped and compare every
-    public output.  -> dict(status, issues=[Issue], n=comparisons, info=...)"""
+    public output.  -> dict(status, issues=[Issue], n=comparisons, info=...)
+    `read_order`: run the read-order leg (check_read_order); None = for every third case number."""
     pa, pb = partitions(case)
     res = {"status": "done", "issues": [], "n": 0, "info": {}}
     if pa[0] == "exc" or pb[0] == "exc":
@@ -1113,4 +1114,118 @@ def check_pair(case, sample_names=None):
     res["info"]["removed"] = removed
     res["info"]["reordered"] = reordered
     res["info"]["empty_display"] = empty_display
+    # --- the order-dependent outputs do not depend on what was read before them
+    if read_order or (read_order is None and int(case.get("k", 0)) % 3 == 0):
+        try:
+            res["info"]["read_order"] = check_read_order(case, res)
+        except Exception as e:  # noqa  (a crash of the leg must be visible, not fatal)
+            res["issues"].append(Issue("harness", "check_read_order", {"error": repr(e)}, {"sig": "harness-error"}))
     return res
+
+
+# ------------------------------------------------------------------------------------
+# READ-ORDER LEG: the order-dependent outputs do not depend on what was read before them
+# ------------------------------------------------------------------------------------
+# "Position i of every row-wise (column-wise) output refers to the same element" and "every ... output equals
+# the untransformed output re-indexed by the REPORTED order" are statements about the outputs of one partition,
+# whichever of them a caller reads first: an exporter reads the headings (fills, labels, codes, aliases), then
+# the position lists, then the order.  The relational oracle above reads the order first and the rest in one
+# fixed (alphabetical) sequence on a fresh partition, so an output that is right when read early and wrong
+# after another read (a cached order vector edited in place by the read of another output) never shows.
+ORDER_DEPENDENT = re.compile(r"^((row|column)_(labels|codes|aliases)|(rows|columns)_dimension_fills|"
+                             r"(inserted|derived|diff)_(row|column)_idxs|shape|row_count|payload_order)$")
+HEADINGS = re.compile(r"_dimension_fills$|_labels$|_codes$|_aliases$")
+
+
+def order_dependent_reads(cls):
+    """[(key, name, args)] of the outputs C05 aligns with the reported order, by introspection: the heading
+    outputs, the position lists, the extent and the order itself in BOTH reported forms; in the sequence an
+    exporter reads them (fills, other headings, position lists / extent, orders last)."""
+    try:
+        from cr.cube.enums import ORDER_FORMAT
+        fmt = ORDER_FORMAT.BOGUS_IDS
+    except Exception:  # noqa
+        fmt = None
+    outs = public_outputs(cls)
+    props = [n for n, k in outs if k == "prop" and ORDER_DEPENDENT.match(n)]
+    rank = lambda n: (0 if n.endswith("_dimension_fills") else 1 if HEADINGS.search(n) else 2, n)  # noqa: E731
+    reads = [(n, n, ()) for n in sorted(props, key=rank)]
+    for n, k in outs:
+        if k == "order":
+            reads.append((n, n, ()))
+            if fmt is not None:
+                reads.append((n + "(BOGUS_IDS)", n, (fmt,)))
+    return reads
+
+
+def _canon_now(r):
+    """canonical value of a read, taken IMMEDIATELY (row_order() hands out the cached array itself)"""
+    from harness.props import common_cases as cc
+    return cc._canon_read(r)
+
+
+def check_read_order(case, res, shuffled=True):
+    """For the transformed and the untransformed run of `case` whose reported order displays a subtotal:
+
+      fresh     every order-dependent output (order_dependent_reads) read as the FIRST read of its own new
+                partition;
+      exporter  a second partition: the fills first, the other headings, the position lists and the extent,
+                the order in both forms last - each value must be the fresh one;
+      shuffled  (transformed run, `shuffled`) common_cases.late_reads: EVERY public property of another
+                partition read in an order shuffled by the case number, then the outputs - each value must be
+                the fresh one; the single earlier reads that change it are named.
+
+    Appends Issues (kind 'read-order') to res["issues"]; -> coverage keys for rep.dist."""
+    from harness.props import common_cases as cc
+    ctx = res["ctx"]
+    strand = ctx.ncb is None
+    tr = case["transforms"]
+    runs = (("transformed", tr, ctx.ro_a, ctx.co_a), ("untransformed", impl.strip_display(tr), ctx.ro_b, ctx.co_b))
+    part, pop = case.get("part", 0), case.get("population")
+    cov = []
+    for run, t, ro, co in runs:
+        axes = [a for a, o in (("row", ro), ("column", co)) if o is not None and any(s < 0 for s in o)]
+        if not axes:
+            continue
+        if run == "untransformed" and t == tr:
+            continue                      # nothing to strip: the same partition as the transformed run
+
+        def mk():
+            return impl.partition(case["response"], t, k=part, population=pop)
+        reads = order_dependent_reads(type(res["A"]))
+        fresh = {}
+        for key, name, args in reads:
+            fresh[key] = impl.get(mk(), name, *args)
+        fresh_c = {k: _canon_now(v) for k, v in fresh.items()}
+        klass = "%s %s, displayed subtotals on %s" % ("strand" if strand else "slice", run, "+".join(axes))
+        cov.append("read-order[exporter: fills first, order last]: " + klass)
+        res["n"] += len(reads)
+        q = mk()
+        n_bad = 0
+        first = reads[0][0] if reads else None
+        for key, name, args in reads:
+            late = _canon_now(impl.get(q, name, *args))
+            if late != fresh_c[key] and n_bad < 2:
+                n_bad += 1
+                res["issues"].append(Issue(
+                    "read-order", key,
+                    {"why": "the output read after the headings differs from the one read first on a new partition",
+                     "run": run, "read_first": first, "schedule": [k for k, _, _ in reads],
+                     "fresh": fresh_c[key], "after_earlier_reads": late,
+                     "transforms": t},
+                    {"sig": "output-depends-on-earlier-reads", "output": key, "run": run, "schedule": "exporter"}))
+        if shuffled and run == "transformed":
+            cov.append("read-order[late_reads: every public property shuffled, then the outputs]: " + klass)
+            names = [k for k, _, a in reads if not a]
+            population, late = cc.late_reads({"response": case["response"], "transforms": t, "k": case.get("k", 0)},
+                                             names, fresh, k=part)
+            res["n"] += len(names)
+            for n, a, b, culprits in late[:2]:
+                res["issues"].append(Issue(
+                    "read-order", n,
+                    {"why": "the output read after every other public property (shuffled by the case number) "
+                            "differs from the one read first on a new partition", "run": run,
+                     "fresh": a, "after_other_reads": b, "population": population,
+                     "single_earlier_reads_that_change_it": culprits, "transforms": t},
+                    {"sig": "output-depends-on-earlier-reads", "output": n, "run": run, "schedule": "shuffled"}))
+    return cov
